@@ -9,7 +9,8 @@ package pstoreds
 // record level: entries are kept sorted by expiry (soonest first) whenever the record is not dirty
 
 //@ pred sortedByExpiry(s []*pb.AddrBookRecord_AddrEntry) =
-//@     forall i int, j int :: 0 <= i && i < j && j < len(s) ==> s[i].Expiry <= s[j].Expiry
+//@     (forall i int, j int :: 0 <= i && i < j && j < len(s) ==> s[i].Expiry <= s[j].Expiry) &&
+//@     (forall j int :: 0 <= j && j < len(s) ==> s[0].Expiry <= s[j].Expiry)
 
 //@ func removeExpired
 //@ prop C09
@@ -20,6 +21,7 @@ package pstoreds
 //@ ensures forall k int :: 0 <= k && k < len(entries) - len(result) ==> entries[k].Expiry <= now
 //@ ensures len(result) > 0 ==> result[0].Expiry > now
 //@ ensures sortedByExpiry(entries) ==> forall k int :: 0 <= k && k < len(result) ==> result[k].Expiry > now
+//@ ensures sortedByExpiry(entries) ==> sortedByExpiry(result)
 //@ modifies nothing
 
 //@ func (r *addrsRecord) hasExpiredAddrs
@@ -27,21 +29,87 @@ package pstoreds
 //@ ensures result <==> (len(r.Addrs) > 0 && r.Addrs[0].Expiry <= now)
 //@ modifies nothing
 
+// TRUSTED specification of sort.Slice for its single use in this package (clean sorts r.Addrs by Expiry with
+// `less(i, j) = r.Addrs[i].Expiry < r.Addrs[j].Expiry`; the closure is not interpreted, so the resulting order is
+// stated directly): a permutation of the slice, ascending by Expiry. Kept in this contract file (not in
+// /verif/specs/stdlib.spec) because it mentions this package's entry type.
+
+//@ extern sort.Slice(x, less)
+//@ ensures sortedByExpiry(x)
+//@ ensures forall i int :: 0 <= i && i < len(x) ==> exists j int :: 0 <= j && j < len(x) && x[i] == old(x)[j]
+//@ ensures forall j int :: 0 <= j && j < len(x) ==> exists i int :: 0 <= i && i < len(x) && x[i] == old(x)[j]
+//@ modifies elems(x)
+
+// clean: afterwards the record is sorted and holds no entry with Expiry <= now.Unix(); every survivor was in the
+// record before; entries are not modified. Record invariant (hypothesis of the first two clauses): a record that is
+// not dirty is sorted.
+
+//@ pred noneExpired(s []*pb.AddrBookRecord_AddrEntry, t int64) = forall i int :: 0 <= i && i < len(s) ==> s[i].Expiry > t
+//@ pred subsetOf(s []*pb.AddrBookRecord_AddrEntry, r *addrsRecord) =
+//@     forall i int :: 0 <= i && i < len(s) ==> exists j int :: 0 <= j && j < len(old(r.Addrs)) && s[i] == old(r.Addrs)[j]
+
+//@ func (r *addrsRecord) clean
+//@ prop C09
+//@ ensures old(r.dirty || sortedByExpiry(r.Addrs)) ==> sortedByExpiry(r.Addrs)
+//@ ensures old(r.dirty || sortedByExpiry(r.Addrs)) ==> noneExpired(r.Addrs, fdiv(now, 1000000000))
+//@ ensures len(r.Addrs) <= len(old(r.Addrs)) && subsetOf(r.Addrs, r)
+//@ ensures forall x *pb.AddrBookRecord_AddrEntry :: x.Expiry == old(x.Expiry) && x.Ttl == old(x.Ttl) && x.Addr == old(x.Addr)
+//@ ensures r.dirty == old(r.dirty) && (!chgd ==> len(r.Addrs) == len(old(r.Addrs)) && !r.dirty)
+//@ modifies r.Addrs, elems(r.Addrs)
+
 // ---------------------------------------------------------------------------
 // deleteInPlace: the result holds exactly the entries of s that are not named by addrs
-// (order is irrelevant: the record is re-sorted before it is flushed)
 
 //@ pred namedBy(addrs []ma.Multiaddr, x *pb.AddrBookRecord_AddrEntry) =
 //@     exists j int :: 0 <= j && j < len(addrs) && bytes.Equal(addrs[j].Bytes(), x.Addr)
 
 //@ func deleteInPlace
 //@ prop C09
-//@ loop 0 invariant 0 <= idx0 && idx0 <= len(s) && survived <= len(s) && (len(s) == 0 || 1 <= survived)
-//@ loop 1 invariant 0 <= idx1 && idx1 <= len(addrs) && survived <= len(s) && 1 <= survived
+//@ loop 0 invariant 0 <= survived && survived <= idx0 && idx0 <= len(s)
+//@ loop 0 invariant forall i int :: 0 <= i && i < survived ==> (exists k int :: 0 <= k && k < idx0 && s[i] == old(s)[k])
+//@ loop 0 invariant forall i int :: 0 <= i && i < survived ==> !namedBy(addrs, s[i])
+//@ loop 0 invariant forall k int :: 0 <= k && k < idx0 && !namedBy(addrs, old(s)[k]) ==>
+//@         (exists i int :: 0 <= i && i < survived && s[i] == old(s)[k])
+//@ loop 0 invariant forall j int :: idx0 <= j && j < len(s) ==> s[j] == old(s)[j]
+//@ loop 1 invariant forall j int :: 0 <= j && j < idx1 ==> !bytes.Equal(addrs[j].Bytes(), addr.Addr)
 //@ ensures len(result) <= len(s)
-//@ ensures forall i int :: 0 <= i && i < len(result) ==>
-//@         exists k int :: 0 <= k && k < len(s) && result[i] == old(s[k]) && !old(namedBy(addrs, s[k]))
-//@ ensures forall k int :: 0 <= k && k < len(s) && !old(namedBy(addrs, s[k])) ==>
-//@         exists i int :: 0 <= i && i < len(result) && result[i] == old(s[k])
-//@ ensures forall x *pb.AddrBookRecord_AddrEntry :: x.Expiry == old(x.Expiry) && x.Ttl == old(x.Ttl)
+//@ ensures forall i int :: 0 <= i && i < len(result) ==> (exists k int :: 0 <= k && k < len(s) && result[i] == old(s[k]))
+//@ ensures forall i int :: 0 <= i && i < len(result) ==> !namedBy(addrs, result[i])
+//@ ensures forall k int :: 0 <= k && k < len(s) && !namedBy(addrs, old(s[k])) ==>
+//@         (exists i int :: 0 <= i && i < len(result) && result[i] == old(s[k]))
+//@ ensures forall x *pb.AddrBookRecord_AddrEntry :: x.Expiry == old(x.Expiry) && x.Ttl == old(x.Ttl) && x.Addr == old(x.Addr)
 //@ modifies elems(s)
+
+// ---------------------------------------------------------------------------
+// Entry points: which addresses reach the record, in which TTL write mode
+
+//@ pred usable(a ma.Multiaddr, pid peer.ID) = nth(peer.SplitAddr(a), 0) != nil &&
+//@     (nth(peer.SplitAddr(a), 1) == "" || nth(peer.SplitAddr(a), 1) == pid)
+
+//@ func cleanAddrs
+//@ prop C09
+//@ loop 0 invariant 0 <= idx0 && idx0 <= len(addrs) && len(clean) <= idx0 && fresh(clean)
+//@ loop 0 invariant forall i int :: 0 <= i && i < len(clean) ==>
+//@         exists j int :: 0 <= j && j < idx0 && usable(addrs[j], pid) && clean[i] == nth(peer.SplitAddr(addrs[j]), 0)
+//@ loop 0 invariant forall j int :: 0 <= j && j < idx0 && usable(addrs[j], pid) ==>
+//@         exists i int :: 0 <= i && i < len(clean) && clean[i] == nth(peer.SplitAddr(addrs[j]), 0)
+//@ ensures forall i int :: 0 <= i && i < len(result) ==>
+//@         exists j int :: 0 <= j && j < len(addrs) && usable(addrs[j], pid) && result[i] == nth(peer.SplitAddr(addrs[j]), 0)
+//@ ensures forall j int :: 0 <= j && j < len(addrs) && usable(addrs[j], pid) ==>
+//@         exists i int :: 0 <= i && i < len(result) && result[i] == nth(peer.SplitAddr(addrs[j]), 0)
+//@ ensures fresh(result)
+//@ modifies nothing
+
+//@ func ttlIsConnected
+//@ prop C09
+//@ ensures result <==> ttl >= pstore.ConnectedAddrTTL
+//@ modifies nothing
+
+// ---------------------------------------------------------------------------
+// Signed peer records (C08 clauses first: post#0 event form, post#1 state form)
+
+//@ func (ab *dsAddrBook) ConsumePeerRecord
+//@ prop C09 C08
+//@ ensures result0 ==> called(MatchesPublicKey, 0) && ret(MatchesPublicKey, 0, 0) && arg(MatchesPublicKey, 0, 0) == rec.PeerID && arg(MatchesPublicKey, 0, 1) == recordEnvelope.PublicKey
+//@ ensures result0 ==> nth(peer.IDFromPublicKey(recordEnvelope.PublicKey), 1) == nil && nth(peer.IDFromPublicKey(recordEnvelope.PublicKey), 0) == rec.PeerID
+//@ noframe
